@@ -12,7 +12,7 @@ MANIFEST = dict(
          "completed; slot_atomic: if every access to a protected value happens under its lock, the projection of any run on that "
          "value is a sequence of whole critical sections, one thread each, in each thread's program order - so a request that "
          "takes a channel slot once is atomic for that channel and C01-C03 transfer to concurrent histories. The lock programs of "
-         "43 request kinds (commitment updates, new/setup/forget channel, balance, chaninfo and heartbeat queries, invoice and "
+         "57 request kinds (14 of them real protocol messages through ChannelHandler / RootHandler::do_handle at protocol 4 and 6) (commitment updates, new/setup/forget channel, balance, chaninfo and heartbeat queries, invoice and "
          "keysend approval, allowlist, on-chain check and sign, block add/remove compact and streamed, persist_all) are RECORDED "
          "FROM THE REAL CODE on every run through an instrumented Mutex (hook cfg(vls_verif), vls-core/src/verif_sync.rs) and "
          "written to Gen/LockProgs.v; the rank is SEARCHED by tools/gen_locks.py (topological order of the observed lock-order "
@@ -218,7 +218,8 @@ def run(res):
         pl = subprocess.run([exe, "sweep", "--seed", str(res.seed), "--n", "0", "--tier", res.tier, "plan"] + focus_args,
                             stdout=subprocess.PIPE, stderr=subprocess.PIPE, text=True, errors="replace", timeout=600)
         plan = [json.loads(l[7:]) for l in pl.stdout.splitlines() if l.startswith("@@PLAN ")]
-        n_sweep = min(plan[0]["tier1"] + plan[0]["tier2"], 6500) if plan else 5000
+        # tier 1 completely, of tier 2 (seeded rotation) what keeps the quick run under a minute
+        n_sweep = (plan[0]["tier1"] + min(plan[0]["tier2"], 2000)) if plan else 5000
     nshards = min(8, max(1, lib.NCPU // 2))
     sweep = {"races": 0, "completed": 0, "blocked_then_completed": 0, "program_changed": 0, "panicked": 0,
              "unpreparable": 0, "serializable": 0, "not_serializable": 0, "sequential_unavailable": 0,
